@@ -1,6 +1,6 @@
 use crate::{
     gc::GC,
-    object::{Error, FromString, Object, Type},
+    object::{Error, FromString, Object, Type, MAX_INT, MIN_INT},
 };
 
 #[repr(u8)]
@@ -140,7 +140,18 @@ fn call_int(args: &[Object]) -> Result<Object, Error> {
                 0
             }
         }
-        Type::Float => unsafe { args[0].as_f64_unchecked() as isize },
+        Type::Float => {
+            let value = unsafe { args[0].as_f64_unchecked() };
+            if !value.is_finite() {
+                return Err(Error::ArgumentError(format!(
+                    "kan {} niet converteren naar een integer",
+                    value
+                )));
+            }
+
+            // truncates toward zero (and saturates, which is caught by the range check below)
+            value as isize
+        }
         Type::Int => return Ok(args[0]),
         Type::String => unsafe {
             match args[0].as_str_unchecked().trim().parse() {
@@ -160,6 +171,13 @@ fn call_int(args: &[Object]) -> Result<Object, Error> {
             )))
         }
     };
+
+    if !(MIN_INT..=MAX_INT).contains(&result) {
+        return Err(Error::ArgumentError(format!(
+            "kan {} niet converteren naar een integer: waarde valt buiten het bereik",
+            args[0]
+        )));
+    }
 
     Ok(Object::int(result))
 }
